@@ -241,7 +241,7 @@ Definition has_upper_case (b : bytes) : bool := existsb (fun c => (65 <=? c) && 
 Definition is_connection_specific (k : bytes) : bool :=
   bytes_eqb k S_connection || bytes_eqb k S_keep_alive || bytes_eqb k S_proxy_connection
   || bytes_eqb k S_transfer_encoding || bytes_eqb k S_upgrade.
-Definition to_lower (b : bytes) : bytes := map (fun c => N.lor c 32) b.
+Definition to_lower (b : bytes) : bytes := map (fun c => if (65 <=? c) && (c <=? 90) then N.lor c 32 else c) b.
 
 Definition MAXINT : Z := 9223372036854775807.
 (* parseUint: None = errInvalidUint *)
